@@ -79,6 +79,12 @@ Example C06_source_constructor_nonvacuous :
   CFiringScript___init__ [0;1;2]%nat [] (Some [(2%nat, 5); (3%nat, -1)]) = PyExn [(2%nat, 5)] /\ CFiringScript___init__ [0;1;2]%nat [] None = PyOk [].
 Proof. vm_compute. repeat split. Qed.
 
+(* the property `script` (what apply(), to_dict() and every caller read), translated from the CURRENT source: a NEW dictionary with exactly one entry per vertex holding the
+   script's value there - the dense form of the sparse dictionary, for every iteration order of the vertex set *)
+Theorem C06_source_script_property : forall n vs sd s so, rep_vset n vs -> NoDup vs -> rep_script n sd s -> (forall l, Permutation.Permutation (so l) l) ->
+  exists dd, CFiringScript_script vs sd so = PyOk dd /\ rep_div n dd s.
+Proof. exact script_property_refines. Qed.
+Print Assumptions C06_source_script_property.
 (* the Laplacian itself, as built by CFLaplacian._construct_matrix translated from /repo's CURRENT source: for dictionaries representing g (and its valences) the result has,
    for every vertex v, a row whose entry at w - absent entries being 0, the rows are defaultdict(int) - is lap_entry g v w of C06_entries, for every order in which the
    vertex set is iterated; get_matrix_entry reads these entries back and refuses names that are not vertices *)
